@@ -14,6 +14,7 @@ S3 = ("in", [("d1", [("d2", [("d3", [], ["k.cmake"])], ["j.cmake"])], ["i.cmake"
 S4 = ("in", [("mid", [("deep", [], ["k.cmake"])], ["n.txt"])], ["h.cmake"])
 S5 = ("in", [("docs", [], ["old.rst"]), ("docs-old", [], ["l.cmake"])], ["h.cmake", "g.cmake"])      # a sibling whose name starts with the output directory's name
 S6 = ("in", [("Pkg", [], ["one.cmake"]), ("pkg", [], ["two.cmake"])], ["Utils.cmake", "utils.cmake", "alpha.cmake"])     # names differing only in case
+S7 = ("in", [], ["index.cmake", "a.cmake"])      # known finding D15: the page of index.cmake and the directory index share one path
 def chain_skel(depth):
     node = ("d%02d" % depth, [], ["m%02d.cmake" % depth])
     for d in range(depth - 1, 0, -1):
@@ -25,7 +26,7 @@ def wide_skel(nfiles, ndirs):
     return ("in", [("s%02d" % i, [], ["f.cmake"]) for i in range(ndirs)], ["f%02d.cmake" % i for i in range(nfiles)])
 
 
-SKELS = {"CH12": chain_skel(12), "CH30": chain_skel(30), "W20": wide_skel(20, 12), "W60": wide_skel(60, 40), "S6": S6, "S1": S1, "S2": S2, "S2q": S2q, "S2b": S2b, "S3": S3, "S4": S4, "S5": S5}
+SKELS = {"CH12": chain_skel(12), "CH30": chain_skel(30), "W20": wide_skel(20, 12), "W60": wide_skel(60, 40), "S6": S6, "S1": S1, "S2": S2, "S2q": S2q, "S2b": S2b, "S3": S3, "S4": S4, "S5": S5, "S7": S7}
 
 
 def tree_ob(prefix, skel, mode, fix, fixp=True, fixrev=False, timeout=300, note="", fixexcl=False, prefixes=("P",)):
